@@ -7,6 +7,7 @@ save=$(mktemp -d /tmp/evsave.XXXX); cp evidence/*.json "$save"/
 for d in seeded/C*/; do
   name=$(basename "$d"); [[ "$name" =~ $re ]] || continue
   id=${name%%-*}
+  grep -q '"obsolete"' "$d/meta.json" 2>/dev/null && { echo "$name: obsolete (skipped)"; continue; }
   git -C /repo diff --quiet || { echo "repo dirty"; exit 2; }
   git -C /repo apply "/verif/$d/patch.diff" 2>/dev/null || { echo "$name: DOES-NOT-APPLY"; continue; }
   out=$(timeout 1200 ./check "$id" quick 2>&1); rc=$?
